@@ -66,9 +66,17 @@ def impl(case):
 
     y, m, d = case["today"]
     args = [Path(a) if i % 2 else a for i, a in enumerate(case["args"])]
+    gmap = case["map"]
+    if len(case["args"]) % 2 == 0:
+        # half of the cases take the map the way `zorg edit` gets it: through the validated EditConfig object
+        from clack import clack_envvars_set
+        from zorg.app.config import EditConfig, TemplateRenderConfig
+
+        with clack_envvars_set("zorg", [EditConfig, TemplateRenderConfig]):
+            gmap = EditConfig(command="edit", zo_paths=[Path("x")], file_group_map=gmap).file_group_map
     with freeze_time(dt.datetime(y, m, d, 13, 37)):
         try:
-            r = expand_file_group_paths(args, file_group_map=case["map"])
+            r = expand_file_group_paths(args, file_group_map=gmap)
             return {"ok": [str(p) for p in r]}
         except KeyError as e:
             return {"err": "keyError", "name": str(e.args[0])}
